@@ -91,7 +91,7 @@ func buildOnce(doc, format string) ([]byte, string) {
 // the times a stamp may come from: every file and directory below the places sources live in
 func diskTimes() []int64 {
 	seen := map[int64]bool{}
-	for _, root := range []string{"src", "scripts", "changelog.yaml", "many"} {
+	for _, root := range []string{"src", "scripts", "changelog.yaml", "many", "stage"} {
 		filepath.Walk(root, func(p string, info os.FileInfo, err error) error {
 			if err == nil {
 				seen[info.ModTime().Unix()] = true
@@ -190,7 +190,11 @@ func runC07Case(w *caseWriter, id string, d reproDesc, first map[string]string, 
 			env = append(append([]string{}, env...), "SOURCE_DATE_EPOCH="+d.SDE)
 		}
 		c := childBuild(d.YAML, f, env)
-		_, e := buildOnce(absDoc, f)
+		rawAbs, e := buildOnce(absDoc, f)
+		if dd := os.Getenv("VERIF_DUMP"); dd != "" && a != e {
+			os.WriteFile(filepath.Join(dd, id+"-"+f+"-rel"), raw, 0o644)
+			os.WriteFile(filepath.Join(dd, id+"-"+f+"-abs"), rawAbs, 0o644)
+		}
 		late := "-"
 		if first != nil {
 			late = first[f]
@@ -269,6 +273,11 @@ func reproConfig(g *pkgGen, i int) genOut {
 	if i%4 == 1 {
 		c.Contents = append(c.Contents, &files.Content{Source: "many", Destination: fmt.Sprintf("/opt/many%d", i), Type: "tree"})
 	}
+	// a staging tree whose links are absolute and point back into the tree itself (what make install DESTDIR=... leaves
+	// behind): the package must not depend on whether the tree is named by a relative or an absolute path
+	if i%2 == 1 {
+		c.Contents = append(c.Contents, &files.Content{Source: "stage", Destination: fmt.Sprintf("/opt/stage%d", i), Type: "tree"})
+	}
 	// large files first in destination order, smaller ones after them: whatever is pipelined must still come out in order
 	if i%4 == 3 {
 		c.Contents = append(c.Contents,
@@ -280,6 +289,27 @@ func reproConfig(g *pkgGen, i int) genOut {
 			&files.Content{Source: "src/d", Destination: fmt.Sprintf("/opt/a%d/5-tree", i), Type: "tree"})
 	}
 	return gen
+}
+
+// stageTree: a staging directory with absolute links into itself, an absolute link elsewhere and a relative one
+func stageTree() {
+	must(os.MkdirAll("stage/usr/lib", 0o755))
+	wd, err := os.Getwd()
+	must(err)
+	t := time.Unix(1600000400, 0)
+	must(os.WriteFile("stage/usr/lib/libfoo.so.1.2", []byte("elf"), 0o755))
+	must(os.Chtimes("stage/usr/lib/libfoo.so.1.2", t, t))
+	os.Remove("stage/usr/lib/libfoo.so.1")
+	must(os.Symlink(filepath.Join(wd, "stage/usr/lib/libfoo.so.1.2"), "stage/usr/lib/libfoo.so.1"))
+	os.Remove("stage/usr/lib/libfoo.so")
+	must(os.Symlink("libfoo.so.1", "stage/usr/lib/libfoo.so"))
+	os.Remove("stage/usr/lib/elsewhere")
+	must(os.Symlink("/usr/lib/elsewhere.so", "stage/usr/lib/elsewhere"))
+	os.Remove("stage/usr/self")
+	must(os.Symlink(filepath.Join(wd, "stage/usr"), "stage/usr/self"))
+	for _, d := range []string{"stage/usr/lib", "stage/usr", "stage"} {
+		must(os.Chtimes(d, t, t))
+	}
 }
 
 // manyFiles: a source tree with a few hundred small files, created once per run
@@ -304,6 +334,7 @@ func cmdC07(tier string, seed int64, out, statsOut, replay string) {
 	w := newCaseWriter(out)
 	st := &c07Stats{envs: map[string]int{}, built: map[string]int{}, distinct: map[string]struct{}{}}
 	manyFiles()
+	stageTree()
 	if replay != "" {
 		i := 0
 		readDescs(replay, func(id string, raw json.RawMessage) {
